@@ -639,7 +639,7 @@ def sym_sqrt(x):
     c = ctx()
     _count('sqrt')
     r = c.fresh('sqrt')
-    c.domain.append(('sqrt_arg_nonneg', x.t))
+    c.domain.append(('sqrt_arg_nonneg', x.t, len(c.cons)))     # obligation: holds given what is known so far
     c.add('assumptions', x.t >= 0)
     c.add('axioms', r >= 0)
     c.add('axioms', r * r == x.t)
@@ -1053,6 +1053,7 @@ class Path:
         self.decisions = list(c.decisions)
         self.divs = list(c.divs)
         self.domain = list(c.domain)
+        self.cons_order = [t for t, _ in c.cons]
         self.result = result
         self.exc = exc
         self.stub_calls = dict(c.stub_calls)
